@@ -151,6 +151,29 @@ def gen_program(g, prof):
                 ["catch", "cancel", [["yield", g.int(1, 4)]], [["yield", g.int(0, 1)]], g.chance(30), "swallow"],
                 g.choice([["forever"], ["wait", "e0"], ["yield", 2], ["sleep", 5]]),
                 ["yield", 1]]]]]] + main
+        elif which == "native_in_cancelled_scope":
+            # a child sits behind a shield inside a scope that gets cancelled; then it is cancelled natively:
+            # the native CancelledError must travel through the cancelled scope untouched
+            a, b, gg, c1 = new("s"), new("s"), new("g"), new("c")
+            st["names"] += [a, b, gg, c1]
+            st["groups"].append(gg)
+            st["children"].append(c1)
+            c = g.int(1, 4)
+            ext += [[c, "cancel", a], [c + g.int(1, 4), "native", c1]]
+            main = [["group", gg, [["spawn", gg, c1, "soon", [["scope", a, g.chance(30), None, [
+                ["scope", b, True, None, [["forever"]]], ["yield", 1]]]]], ["yield", g.int(1, 3)]] + main]]
+        elif which == "multi_delivery":
+            # the host swallows k deliveries of its own scope's cancellation before leaving it
+            a = new("s")
+            st["names"].append(a)
+            k = g.int(1, 5)
+            inner = [["cancel", a]] + [["catch", "cancel", [["yield", g.int(1, 2)]], [["yield", 0]], False, "swallow"]
+                                       for _ in range(k)]
+            if g.bool():
+                b = new("s")
+                st["names"].append(b)
+                inner = [["scope", b, False, None, inner]]
+            main = [["scope", a, g.chance(20), None, inner], ["yield", 1]] + main
         elif which == "sibling_double_cancel":
             a, b, gg, c1, c2 = new("s"), new("s"), new("g"), new("c"), new("c")
             st["names"] += [a, b, gg, c1, c2]
